@@ -93,3 +93,49 @@ Proof.
 Qed.
 
 End Tie.
+
+(* ---- the counterparty's answer to a ResendRequest has the shape the stream theorems ask for -------------------- *)
+From F8 Require Import C20.Classify C20.SessFacts C20.BurstProofs.
+
+(* how the session classifies an item of the burst (every item carries PossDupFlag=Y) *)
+Definition shape (i : item) : bitem :=
+  match i with
+  | IResend pm => if is_reject_type (pm_type pm) then BRej (pm_seq pm) else BApp (pm_type pm) (pm_seq pm) true
+  | IGapFill g n => BGap g n
+  end.
+
+(* the remembered messages are numbered n, n+1, ..., past-1 *)
+Fixpoint consec (l : list pmsg) (n past : N) : Prop :=
+  match l with
+  | [] => n = past
+  | pm :: l' => pm_seq pm = n /\ consec l' (n + 1) past
+  end.
+
+Lemma replay_items_tiles : forall l gs past d n,
+  consec l n past -> (match gs with Some g => g < n | None => True end) ->
+  tiles (match gs with Some g => g | None => n end) (map shape (fst (replay_items l gs past d))) past /\
+  forallb item_dup (map shape (fst (replay_items l gs past d))) = true.
+Proof.
+  induction l as [|pm l IH]; intros gs past d n C G; cbn [replay_items consec] in *.
+  - subst n. destruct gs as [g|]; cbn [fst map shape tiles forallb item_dup]; repeat split; assumption.
+  - destruct C as [Q C]. subst n.
+    destruct (if is_reject_type (pm_type pm) then pop d else (negb (is_session_type (pm_type pm)), d)) as [resend d1] eqn:RS.
+    destruct resend.
+    + specialize (IH None past d1 (pm_seq pm + 1) C I). destruct (replay_items l None past d1) as [r d2]. cbn [fst] in *.
+      destruct IH as [T D]. destruct gs as [g|]; cbn [app map shape tiles forallb item_dup fst].
+      * split; [split; [reflexivity|]; split; [exact G|]|].
+        -- destruct (is_reject_type (pm_type pm)); cbn [tiles]; (split; [reflexivity|exact T]).
+        -- destruct (is_reject_type (pm_type pm)); cbn [item_dup andb]; exact D.
+      * split.
+        -- destruct (is_reject_type (pm_type pm)); cbn [tiles]; (split; [reflexivity|exact T]).
+        -- destruct (is_reject_type (pm_type pm)); cbn [item_dup andb]; exact D.
+    + destruct gs as [g|].
+      * destruct (pop d1) as [split d2]. destruct split.
+        -- assert (L : pm_seq pm < pm_seq pm + 1) by lia.
+           specialize (IH (Some (pm_seq pm)) past d2 (pm_seq pm + 1) C L).
+           destruct (replay_items l (Some (pm_seq pm)) past d2) as [r d3]. cbn [fst map shape tiles forallb item_dup] in *.
+           destruct IH as [T D]. split; [|exact D]. split; [reflexivity|]. split; [lia|exact T].
+        -- assert (L : g < pm_seq pm + 1) by lia. exact (IH (Some g) past d2 (pm_seq pm + 1) C L).
+      * assert (L : pm_seq pm < pm_seq pm + 1) by lia.
+        exact (IH (Some (pm_seq pm)) past d1 (pm_seq pm + 1) C L).
+Qed.
